@@ -1072,3 +1072,56 @@ def self_attrs_written(fn) -> set:
                                     "__init__ is not a literal")
             out.add(a.args[1].value)
     return out
+
+
+# ---------------------------------------------------------------------------
+# pickled state = the arguments of the (re)building method, in order
+
+def rebuild_state_agrees(cls, builder="_compile"):
+    """For a class that pickles by handing the arguments of *builder* out of
+    __getstate__ and calling *builder* again in __setstate__:
+    -> (ok, state_attrs) where ok says that position i of the state is the
+    attribute in which *builder* stores (something computed from) its i-th
+    parameter and nothing else, and that __setstate__ passes the state
+    positions to *builder* in order.  Raises AnalysisError on unknown shapes."""
+    from .summary import contains
+    b = cls.members.get(builder)
+    gs = cls.members.get("__getstate__")
+    ss = cls.members.get("__setstate__")
+    if b is None or gs is None or ss is None:
+        return False, []
+    params = [a.arg for a in b.node.args.args][1:]
+    # where does each parameter end up?
+    holder = {}
+    for ps in summarize(b.node, node_param=False):
+        for e in ps.events:
+            if e.kind == "attrwrite" and e.arg == ("selfobj",) and \
+                    e.value is not None:
+                src = [p_ for p_ in params
+                       if e.value == ("param", p_)
+                       or contains(e.value, lambda t: t == ("param", p_))]
+                if len(src) == 1:
+                    holder.setdefault(src[0], set()).add(e.name)
+    rets = [ps for ps in summarize(gs.node, node_param=False)
+            if ps.term == "return"]
+    if len(rets) != 1:
+        raise AnalysisError(f"{cls.name}.__getstate__: expected one return")
+    rv = rets[0].retval
+    if not (rv[0] == "lit" and rv[1] in ("tuple", "list")):
+        raise AnalysisError(f"{cls.name}.__getstate__ does not return a tuple "
+                            f"literal: {rv}")
+    state = list(rv[2])
+    attrs = [x[1] if x[0] == "self" else None for x in state]
+    ok = len(state) == len(params) and all(
+        a is not None and a in holder.get(p_, ())
+        for a, p_ in zip(attrs, params))
+    # __setstate__: builder(*state) or builder(state[0], state[1], ...)
+    st_param = ss.node.args.args[1].arg if len(ss.node.args.args) > 1 else None
+    ST = ("param", st_param)
+    calls = [e for ps in summarize(ss.node, node_param=False) for e in ps.events
+             if e.kind == "selfcall" and e.name == builder]
+    good = bool(calls) and all(
+        e.args == (("star", ST),)
+        or e.args == tuple(("index", ST, i) for i in range(len(params)))
+        for e in calls)
+    return ok and good, attrs
